@@ -476,3 +476,102 @@ Proof. intros ds _ _ _. reflexivity. Qed.
 
 Example numeral_token_sat : numeral_token [48; 120; 49; 46; 56].   (* "0x1.8" *)
 Proof. repeat split; try reflexivity. vm_compute. discriminate. Qed.
+
+(* ---------------------------------------------------------------- tostring / tonumber round trip of integers *)
+Lemma dec_digit_of d : 0 <= d < 10 -> dec_digit (48 + d) = Some d.
+Proof.
+  intros H. unfold dec_digit. destruct (Z.leb_spec 48 (48 + d)); [|lia]. destruct (Z.leb_spec (48 + d) 57); [|lia].
+  cbn [andb]. f_equal. lia.
+Qed.
+
+Lemma dec_digits_spec fuel : forall a acc, 0 <= a < 10 ^ Z.of_nat fuel -> (0 < fuel)%nat -> alld dec_digit acc = true ->
+  let l := dec_digits fuel a acc in
+  alld dec_digit l = true /\ l <> [] /\
+  dvalue dec_digit 10 l 0 = a * 10 ^ Z.of_nat (length acc) + dvalue dec_digit 10 acc 0.
+Proof.
+  induction fuel as [|k IH]; intros a acc Ha Hf Hacc; [lia|].
+  cbn [dec_digits]. destruct (Z.ltb_spec a 10) as [S|B].
+  - cbv zeta. split; [|split].
+    + cbn [alld forallb]. unfold isd at 1. rewrite dec_digit_of by lia. exact Hacc.
+    + discriminate.
+    + cbn [dvalue fold_left]. rewrite dec_digit_of by lia.
+      fold (dvalue dec_digit 10 acc (0 * 10 + a)). rewrite dvalue_acc. ring.
+  - assert (Hk : (0 < k)%nat).
+    { destruct k; [|lia]. cbn in Ha. lia. }
+    assert (Hd : 0 <= a mod 10 < 10) by (apply Z.mod_pos_bound; lia).
+    assert (Hq : 0 <= a / 10 < 10 ^ Z.of_nat k).
+    { split; [apply Z.div_pos; lia|]. apply Z.div_lt_upper_bound; [lia|].
+      rewrite Nat2Z.inj_succ, Z.pow_succ_r in Ha by lia. lia. }
+    assert (Hacc' : alld dec_digit ((48 + a mod 10) :: acc) = true).
+    { cbn [alld forallb]. unfold isd at 1. rewrite dec_digit_of by lia. exact Hacc. }
+    destruct (IH (a / 10) ((48 + a mod 10) :: acc) Hq Hk Hacc') as (A & N & V).
+    cbv zeta. split; [exact A|]. split; [exact N|].
+    rewrite V. cbn [length dvalue fold_left]. rewrite dec_digit_of by lia.
+    fold (dvalue dec_digit 10 acc (0 * 10 + a mod 10)). rewrite (dvalue_acc dec_digit 10 acc (0 * 10 + a mod 10)).
+    rewrite Nat2Z.inj_succ, Z.pow_succ_r by lia.
+    pose proof (Z.div_mod a 10 ltac:(lia)). nia.
+Qed.
+
+Lemma alld_no_space l : alld dec_digit l = true -> forall c, In c l -> is_space c = false /\ is_sign c = false /\ is_x c = false.
+Proof.
+  intros A c Hc. unfold alld in A. rewrite forallb_forall in A. specialize (A c Hc).
+  unfold isd, dec_digit in A. destruct (Z.leb_spec 48 c); cbn [andb] in A; [|discriminate].
+  destruct (Z.leb_spec c 57); [|discriminate].
+  unfold is_space, is_sign, is_x.
+  repeat split; repeat (apply orb_false_iff; split); try (apply Z.eqb_neq; lia); try (apply andb_false_iff; right; apply Z.leb_gt; lia).
+Qed.
+
+Lemma drop_spaces_id l : (forall c, hd_error l = Some c -> is_space c = false) -> drop_spaces l = l.
+Proof. destruct l as [|c r]; [reflexivity|]. intros H. cbn. rewrite (H c eq_refl). reflexivity. Qed.
+
+Lemma trim_id l : l <> [] -> (forall c, In c l -> is_space c = false) -> trim l = l.
+Proof.
+  intros NE H. unfold trim.
+  rewrite (drop_spaces_id l).
+  2:{ intros c Hc. apply H. destruct l; [discriminate|]. injection Hc as ->. now left. }
+  rewrite (drop_spaces_id (rev l)).
+  2:{ intros c Hc. apply H. apply in_rev. destruct (rev l); [discriminate|]. injection Hc as ->. now left. }
+  apply rev_involutive.
+Qed.
+
+Lemma str2int_digits neg sg ds : sign_text sg neg -> ds <> [] -> alld dec_digit ds = true ->
+  dvalue dec_digit 10 ds 0 <= (if neg then 2 ^ 63 else 2 ^ 63 - 1) ->
+  str2int (sg ++ ds) = Some (wrap64 (if neg then - dvalue dec_digit 10 ds 0 else dvalue dec_digit 10 ds 0)).
+Proof.
+  intros ST NE A B. unfold str2int.
+  pose proof (alld_no_space ds A) as NS.
+  assert (T : trim (sg ++ ds) = sg ++ ds).
+  { apply trim_id.
+    - destruct sg; [exact NE|discriminate].
+    - intros c Hc. apply in_app_or in Hc. destruct Hc as [Hc|Hc]; [|now apply NS].
+      destruct ST as [[-> _]|[[-> _]|[-> _]]]; cbn in Hc; try tauto; destruct Hc as [<-|[]]; reflexivity. }
+  rewrite T.
+  assert (SS : split_sign (sg ++ ds) = (neg, ds)).
+  { destruct ST as [[-> ->]|[[-> ->]|[-> ->]]]; try reflexivity.
+    destruct ds as [|c r]; [contradiction|]. cbn. destruct (NS c (or_introl eq_refl)) as (_ & -> & _). reflexivity. }
+  rewrite SS.
+  assert (HP : hex_prefix ds = None).
+  { destruct ds as [|c0 [|x r]]; try reflexivity. cbn.
+    destruct (NS x (or_intror (or_introl eq_refl))) as (_ & _ & ->). now rewrite andb_false_r. }
+  rewrite HP. rewrite (digits_alld dec_digit 10 ds 0 0 A).
+  assert (0 < 0 + Z.of_nat (length ds)) by (destruct ds; [contradiction|cbn [length]; lia]).
+  destruct (Z.ltb_spec 0 (0 + Z.of_nat (length ds))); [|lia]. cbn [andb].
+  destruct (Z.leb_spec (dvalue dec_digit 10 ds 0) (if neg then 2 ^ 63 else 2 ^ 63 - 1)); [reflexivity|lia].
+Qed.
+
+Theorem tostring_tonumber_int n : in64 n -> s_str2number (int_to_dec n) = Some (NInt n).
+Proof.
+  intros Hn. unfold s_str2number, int_to_dec. unfold in64 in Hn.
+  assert (P20 : 2 ^ 63 < 10 ^ Z.of_nat 20) by (vm_compute; reflexivity).
+  destruct (Z.ltb_spec n 0) as [N|P].
+  - destruct (dec_digits_spec 20 (- n) [] ltac:(lia) ltac:(lia) eq_refl) as (A & NE & V).
+    cbn [length dvalue fold_left] in V. rewrite Z.mul_1_r, Z.add_0_r in V.
+    change (45 :: dec_digits 20 (- n) []) with ([45] ++ dec_digits 20 (- n) []).
+    rewrite (str2int_digits true [45] _ ltac:(right; right; auto) NE A) by (rewrite V; lia).
+    rewrite V. rewrite Z.opp_involutive. rewrite wrap64_id by (unfold in64; lia). reflexivity.
+  - destruct (dec_digits_spec 20 n [] ltac:(lia) ltac:(lia) eq_refl) as (A & NE & V).
+    cbn [length dvalue fold_left] in V. rewrite Z.mul_1_r, Z.add_0_r in V.
+    change (dec_digits 20 n []) with ([] ++ dec_digits 20 n []).
+    rewrite (str2int_digits false [] _ ltac:(left; auto) NE A) by (rewrite V; lia).
+    rewrite V. rewrite wrap64_id by (unfold in64; lia). reflexivity.
+Qed.
